@@ -128,25 +128,22 @@ func (sh fileShape) String() string {
 	return fmt.Sprintf("ok/%dof%d/%s/%s", sh.complete, len(sh.seg.Info.Parts), sh.tail, d)
 }
 
-// defect names what is wrong with a file (the cause part of violation keys).
+// defect names what is wrong with a file (the cause part of violation keys), by severity.
 func (sh fileShape) defect() string {
 	switch {
-	case sh.header == "empty":
-		return "empty-file"
-	case sh.header == "broken":
-		return "incomplete-header"
-	case sh.tail != "none":
-		if sh.complete == 0 {
-			return "tail-" + sh.tail + "-no-complete-part"
-		}
-		return "tail-" + sh.tail
+	case sh.header != "ok":
+		return "unparsable-segment" // empty file or incomplete header
 	case sh.complete == 0:
-		return "header-only"
+		return "segment-without-complete-part" // header only, possibly followed by an incomplete tail
+	case sh.tail != "none":
+		return "incomplete-tail"
 	case sh.durField != 0 && sh.durField != sh.seg.Info.MvhdDuration:
 		return "torn-duration-field"
 	}
 	return ""
 }
+
+var severity = map[string]int{"": 0, "torn-duration-field": 1, "incomplete-tail": 2, "segment-without-complete-part": 3, "unparsable-segment": 4}
 
 // completeEnd returns the media end (as a duration from the segment start) of the complete parts.
 func completeEnd(seg *reclib.SegFile, n int) time.Duration {
@@ -165,9 +162,10 @@ func completeEnd(seg *reclib.SegFile, n int) time.Duration {
 }
 
 type evaluator struct {
-	corpus *Corpus
-	recDir string
-	pb     *reclib.Playback
+	corpus       *Corpus
+	recDir       string
+	pb           *reclib.Playback
+	tightFormats []string
 }
 
 func newEvaluator(c *Corpus, dir string) (*evaluator, error) {
@@ -260,12 +258,8 @@ func (e *evaluator) eval(w *reclib.WorkerCtx, idx int) Result {
 	worst := ""
 	for _, sh := range shapes {
 		shapeStr = append(shapeStr, sh.String())
-		if d := sh.defect(); d != "" {
-			if worst != "" && worst != d {
-				worst += "+" + d
-			} else {
-				worst = d
-			}
+		if d := sh.defect(); severity[d] > severity[worst] {
+			worst = d
 		}
 	}
 	if worst == "" {
@@ -296,7 +290,7 @@ func (e *evaluator) eval(w *reclib.WorkerCtx, idx int) Result {
 		outcomes = append(outcomes, fmt.Sprintf("list=%d/%d", status, len(spans)))
 		if anyComplete {
 			if status != 200 {
-				viol("list", fmt.Sprintf("status%d", status), worst,
+				viol("list", "error-status", worst,
 					fmt.Sprintf("list answers %d (%s) although complete parts are on disk", status, strings.TrimSpace(string(body))))
 			} else {
 				const tol = 2 * time.Millisecond
@@ -315,7 +309,7 @@ func (e *evaluator) eval(w *reclib.WorkerCtx, idx int) Result {
 					if !covered {
 						d := sh.defect()
 						if d == "" {
-							d = "other:" + worst
+							d = "neighbour-of-" + worst
 						}
 						viol("list", "complete-parts-not-covered", d,
 							fmt.Sprintf("no list span covers the complete parts of %s [%s, +%s]; spans=%s",
@@ -340,30 +334,35 @@ func (e *evaluator) eval(w *reclib.WorkerCtx, idx int) Result {
 	}
 
 	// ---- get, one tight window per segment that has complete parts
-	for _, sh := range shapes {
+	for si, sh := range shapes {
 		if sh.header != "ok" || sh.complete == 0 {
 			continue
 		}
 		want := map[int][]reclib.Sample{}
 		wanted(sh.seg, sh.complete, want)
 		dur := completeEnd(sh.seg, sh.complete)
+		// the request touches this segment and (its window ends where the next one starts) the next
 		cause := sh.defect()
-		if cause == "" {
-			cause = "other:" + worst
+		if si+1 < len(shapes) && severity[shapes[si+1].defect()] > severity[cause] {
+			cause = "neighbour-of-" + shapes[si+1].defect()
 		}
-		for _, format := range []string{"fmp4", "mp4"} {
+		if cause == "" {
+			cause = "no-defect-in-window"
+		}
+		for _, format := range e.tightFormats {
 			w.Probe(fmt.Sprintf("get-tight %s %s %s", format, filepath.Base(sh.seg.Rel), st))
 			res.Reqs++
 			status, body, err = e.pb.Get(sh.seg.Start, dur, format)
-			probe := "get-" + format
+			probe := "get"
+			outKey := "get-" + format
 			if err != nil && status == 0 {
 				viol(probe, "no-answer", cause, err.Error())
-				outcomes = append(outcomes, probe+"=noanswer")
+				outcomes = append(outcomes, outKey+"=noanswer")
 				continue
 			}
-			outcomes = append(outcomes, fmt.Sprintf("%s=%d", probe, status))
+			outcomes = append(outcomes, fmt.Sprintf("%s=%d", outKey, status))
 			if status != 200 {
-				viol(probe, fmt.Sprintf("status%d", status), cause,
+				viol(probe, "error-status", cause,
 					fmt.Sprintf("get [%s +%s] answers %d (%s) although the window holds complete parts of %s",
 						sh.seg.Start.Format("15:04:05.000000"), dur, status, strings.TrimSpace(string(body)), filepath.Base(sh.seg.Rel)))
 				continue
@@ -376,11 +375,11 @@ func (e *evaluator) eval(w *reclib.WorkerCtx, idx int) Result {
 				_, got, perr = reclib.ParseMP4Response(body)
 			}
 			if perr != nil {
-				viol(probe, "unparsable-answer", cause, perr.Error())
+				viol(probe, "invalid-answer", cause, fmt.Sprintf("%s answer (status 200, %d bytes) is not a valid file: %v", outKey, len(body), perr))
 				continue
 			}
 			if msg := servedOK(want, got); msg != "" {
-				viol(probe, "complete-part-not-served", cause, msg)
+				viol(probe, "complete-part-not-served", cause, outKey+": "+msg)
 			}
 		}
 	}
@@ -413,21 +412,22 @@ func (e *evaluator) eval(w *reclib.WorkerCtx, idx int) Result {
 			}
 		}
 		if cause == "" {
-			cause = "other:" + worst
+			cause = worst
 		}
 		for _, format := range []string{"fmp4", "mp4"} {
 			w.Probe(fmt.Sprintf("get-wide %s %s", format, st))
 			res.Reqs++
 			status, body, err = e.pb.Get(shapes[first].seg.Start, time.Hour, format)
-			probe := "getwide-" + format
+			probe := "get"
+			outKey := "getwide-" + format
 			if err != nil && status == 0 {
 				viol(probe, "no-answer", cause, err.Error())
-				outcomes = append(outcomes, probe+"=noanswer")
+				outcomes = append(outcomes, outKey+"=noanswer")
 				continue
 			}
-			outcomes = append(outcomes, fmt.Sprintf("%s=%d", probe, status))
+			outcomes = append(outcomes, fmt.Sprintf("%s=%d", outKey, status))
 			if status != 200 {
-				viol(probe, fmt.Sprintf("status%d", status), cause,
+				viol(probe, "error-status", cause,
 					fmt.Sprintf("get [%s +1h] answers %d (%s) although complete parts follow the start",
 						shapes[first].seg.Start.Format("15:04:05.000000"), status, strings.TrimSpace(string(body))))
 				continue
@@ -440,11 +440,11 @@ func (e *evaluator) eval(w *reclib.WorkerCtx, idx int) Result {
 				_, got, perr = reclib.ParseMP4Response(body)
 			}
 			if perr != nil {
-				viol(probe, "unparsable-answer", cause, perr.Error())
+				viol(probe, "invalid-answer", cause, fmt.Sprintf("%s answer (status 200, %d bytes) is not a valid file: %v", outKey, len(body), perr))
 				continue
 			}
 			if msg := servedOK(want, got); msg != "" {
-				viol(probe, "complete-part-not-served", cause, msg)
+				viol(probe, "complete-part-not-served", cause, outKey+": "+msg)
 			}
 		}
 	} else {
@@ -454,7 +454,7 @@ func (e *evaluator) eval(w *reclib.WorkerCtx, idx int) Result {
 			res.Reqs++
 			status, _, err = e.pb.Get(shapes[0].seg.Start, time.Hour, "fmp4")
 			if err != nil && status == 0 {
-				viol("get-fmp4", "no-answer", worst, err.Error())
+				viol("get", "no-answer", worst, err.Error())
 			}
 			outcomes = append(outcomes, fmt.Sprintf("get0=%d", status))
 		}
